@@ -18,12 +18,23 @@ COVER = ["cover_dec", "cover_23", "cover_34"]
 _g = [0]
 
 
-def group(rng, mk, ids):
+def group(rng, mk, ids, vals=None):
     _g[0] += 1
     us = []
     for fmt in gen.FORMATS:
         u = mk(fmt, ids)
         u["group"] = _g[0]
+        us.append(u)
+    # integer names drawn from the VALUES themselves: a rotation of the values when they are distinct (every name is some other
+    # item's value), else names overlapping the value range - code that confuses a name with a value shows up only here
+    if vals is not None and len(vals) >= 2:
+        if len(set(vals)) == len(vals):
+            ids2 = list(vals[1:]) + [vals[0]]
+        else:
+            ids2 = rng.sample(range(0, min(max(vals), 10 ** 6) + len(vals) + 2), len(vals))      # range() is lazy: no list is built
+        u = mk("dict_int", ids2)
+        u["group"] = _g[0]
+        u["family"] = (u.get("family") or "") + "/names-from-values"
         us.append(u)
     return us
 
@@ -51,7 +62,7 @@ def units(rng, tier):
             k = 2
             kw = rng.choice([{}, {"partition_difference": rng.choice([1, 2])}])
         ids = gen.ids_for(rng, len(v))
-        return group(rng, lambda fmt, ids: part_unit(a, k, v, rng, fmt=fmt, cmp=cmp, family=fam, ids=ids, **kw), ids)
+        return group(rng, lambda fmt, ids: part_unit(a, k, v, rng, fmt=fmt, cmp=cmp, family=fam, ids=ids, **kw), ids, v)
 
     lists = rng.sample(list(gen.small_lists([0, 1, 2, 3, 5], 4, minlen=2)), 12 if tier == "quick" else 200)
     for vals in lists:
@@ -73,12 +84,37 @@ def units(rng, tier):
         for a in PACK:
             v = vals[:8] if a == "bc" else vals
             ids = gen.ids_for(rng, len(v))
-            us += group(rng, lambda fmt, ids, a=a, v=v: pack_unit(a, C, v, rng, fmt=fmt, cmp="bins", family=fam, ids=ids), ids)
+            us += group(rng, lambda fmt, ids, a=a, v=v: pack_unit(a, C, v, rng, fmt=fmt, cmp="bins", family=fam, ids=ids), ids, v)
+    # dense stream: integer names that are a rotation of the (distinct) values, for the algorithms that search (bin completion, ckk, cbldm):
+    # a name mistaken for a value is then still a plausible number, so nothing crashes - only the sums go wrong
+    for _ in range(1500 if tier == "quick" else 15000):
+        C = rng.choice([20, 30, 50, 100])
+        if rng.random() < 0.5:
+            vals = rng.sample(range(1, C + 1), rng.randint(4, 8))
+            ids = vals[1:] + [vals[0]]
+        else:
+            # mid-sized values (C/5 .. C/2): best-fit-decreasing misses the volume bound, so the search really runs
+            lo, hi = max(1, C // 5), C // 2
+            vals = rng.sample(range(lo, hi + 1), min(rng.randint(5, 8), hi + 1 - lo))
+            ids = list(vals)
+            rng.shuffle(ids)
+        _g[0] += 1
+        a = rng.choice(["bc", "bc", "bc", "bfd", "ckk", "cbldm", "cover_34"])
+        kk = 2 if a == "cbldm" else rng.choice([2, 3])
+        for fmt, idsx in (("list", None), ("dict_int", ids)):
+            if a in ("ckk", "cbldm"):
+                u = part_unit(a, kk, vals, rng, fmt=fmt, cmp="sums", family="names-rotated-values", ids=idsx)
+            else:
+                u = pack_unit(a, C, vals, rng, fmt=fmt, cmp="bins", family="names-rotated-values", ids=idsx)
+            u["group"] = _g[0]
+            if idsx is not None:
+                u["family"] += "/names-from-values"
+            us.append(u)
     for _ in range(50 if tier == "quick" else 700):
         C, vals, fam = gen.covering_instance(rng, nmax=10)
         for a in COVER:
             ids = gen.ids_for(rng, len(vals))
-            us += group(rng, lambda fmt, ids, a=a: pack_unit(a, C, vals, rng, fmt=fmt, cmp="bins", family=fam, ids=ids), ids)
+            us += group(rng, lambda fmt, ids, a=a: pack_unit(a, C, vals, rng, fmt=fmt, cmp="bins", family=fam, ids=ids), ids, vals)
     return us
 
 
@@ -139,12 +175,13 @@ def extra_checks(rng, tier, us, oc):
             u, r = us[i], oc.impl[i]
             if is_named_bc(u):
                 continue            # known finding bc-named-items (reported by the per-unit path)
+            tag = u["params"]["fmt"] + ("(names from values)" if "names-from-values" in (u.get("family") or "") else "")
             if "exc" in r:
-                res[u["params"]["fmt"]] = ("exc", r["exc"])
+                res[tag] = ("exc", r["exc"])
             elif isinstance(r.get("bins"), list):
-                res[u["params"]["fmt"]] = ("sums", sorted(s for s, _ in r["bins"]))
+                res[tag] = ("sums", sorted(s for s, _ in r["bins"]))
             else:
-                res[u["params"]["fmt"]] = ("other", UN.short(r, 100))
+                res[tag] = ("other", UN.short(r, 100))
         if len(set(map(str, res.values()))) > 1:
             p = us[idx[0]]["params"]
             out.append({"text": f"{p['algo']}({'numbins=' + str(p['k']) if 'k' in p else 'binsize=' + str(p['C'])}, values={UN.short(p['vals'], 150)}, "
